@@ -93,6 +93,8 @@ def _leaves():
     add("KDRandomThreshold", lambda: kdt.KDRandomThreshold(threshold=0.5, threshold_std=0.2, p=0.7), "T", True, True)
     add("KDColorJitter", lambda: kdt.KDColorJitter(brightness=0.4, contrast=0.4, saturation=0.2, hue=0.1), "P", True)
     add("KDColorJitter(tensor)", lambda: kdt.KDColorJitter(brightness=0.4, contrast=0.4, saturation=0.2, hue=0.1), "T", True)
+    add("KDColorJitter(wide)", lambda: kdt.KDColorJitter(brightness=1.0, contrast=(0., 1.5), saturation=1.5, hue=0.5), "P", True)
+    add("KDColorJitter(tensor,wide)", lambda: kdt.KDColorJitter(brightness=(0., 2.), contrast=1.0, saturation=(0.5, 1.), hue=(-0.5, 0.1)), "T", True)
     add("KDRandomColorJitter", lambda: kdt.KDRandomColorJitter(p=0.8, brightness=0.4, contrast=0.4, saturation=0.2, hue=0.1), "P", True)
     add("KDGaussianBlurPIL", lambda: kdt.KDGaussianBlurPIL(sigma=(0.1, 2.0)), "P", True)
     add("KDGaussianBlurTV", lambda: kdt.KDGaussianBlurTV(kernel_size=3, sigma=(0.1, 2.0)), "T", True)
